@@ -254,7 +254,7 @@ class IterWorld:
         fn = self.consumer_async if self.prog['dir'] == 'to_async' else self.consumer_sync
         t = sch.spawn(fn, 'consumer')
         sch.join([t])
-        self.aa._CROSS_LOOP_POOL.shutdown(wait=True)
+        self.sch.seams.shutdown_pools()
 
     # ------------------------------------------------------------------ judge
     def judge(self):
@@ -312,6 +312,7 @@ def execute(prog, sspec, keep_log=False):
     sch.log('prog', json.dumps(prog, sort_keys=True))
     w = IterWorld(prog, sch, aa)
     seams = AsyncioSeams(aa).install()
+    sch.seams = seams
     install_policy()
     try:
         try:
